@@ -182,6 +182,26 @@ def _fresh(target):
     return os.path.exists(v) and os.path.getmtime(vo) >= os.path.getmtime(v)
 
 
+def coq_closure(rel):
+    """Transitive closure (paths relative to coq/) of the ORatio files a .v file requires, itself included."""
+    seen, todo = [], [rel]
+    while todo:
+        r = todo.pop()
+        if r in seen or not os.path.exists(os.path.join(COQ, r)):
+            continue
+        seen.append(r)
+        txt = strip_coq_comments(open(os.path.join(COQ, r)).read())
+        for m in re.finditer(r"Require\s+(?:Import\s+|Export\s+)?((?:[\w']+(?:\.[\w']+)*\s*)+)\.(?=\s|$)", txt):
+            for name in m.group(1).split():
+                name = name.strip()
+                if name.startswith("ORatio."):
+                    name = name[len("ORatio."):]
+                cand = name.replace(".", "/") + ".v"
+                if os.path.exists(os.path.join(COQ, cand)):
+                    todo.append(cand)
+    return sorted(seen)
+
+
 def coq_props(prop_id, timeout=1500):
     """Compile coq/props/Properties_<id>.v (after building its dependencies) and return
        dict(obligations=[names], discharged=[names], assumptions={name: text}, log=str, ok=bool, failed_theorem=str|None).
@@ -190,15 +210,30 @@ def coq_props(prop_id, timeout=1500):
     path = os.path.join(COQ, rel)
     src = open(path).read()
     names = re.findall(r"^\s*(?:Theorem|Lemma|Corollary)\s+([A-Za-z0-9_']+)", strip_coq_comments(src), re.M)
-    gate = coq_gate()
-    res = dict(obligations=names, discharged=[], assumptions={}, log="", ok=False, failed_theorem=None, gate=gate)
+    closure = coq_closure(rel)
+    gate = coq_gate(closure)
+    res = dict(obligations=names, discharged=[], assumptions={}, log="", ok=False, failed_theorem=None, gate=gate, closure=closure)
     if gate:
         res["log"] = "forbidden constructs:\n" + "\n".join(gate)
         return res
+    vo = rel + "o"
+    key = sha(*[open(os.path.join(COQ, f)).read() for f in closure])
+    cache = os.path.join(BUILD, "props_cache")
+    os.makedirs(cache, exist_ok=True)
+    cfile = os.path.join(cache, "%s.json" % prop_id)
     with Lock("coq"):
         coq_prepare()
-        # dependencies first (make -k so that unrelated broken files do not matter)
-        vo = rel + "o"
+        if os.path.exists(cfile) and os.path.exists(os.path.join(COQ, vo)):
+            try:
+                c = json.load(open(cfile))
+            except Exception:
+                c = {}
+            if c.get("key") == key:
+                # same sources as the last successful build: make must agree that nothing is to be done
+                r0 = run(["make", "-j%d" % NPROC, "-k", "-q", vo], cwd=COQ, timeout=timeout)
+                if r0.rc == 0:
+                    c["res"]["cached"] = True
+                    return c["res"]
         try:
             os.remove(os.path.join(COQ, vo))
         except OSError:
@@ -218,6 +253,11 @@ def coq_props(prop_id, timeout=1500):
     if built:
         res["discharged"] = list(names)
         res["ok"] = True
+        res["log"] = log[-4000:]
+        try:
+            json.dump({"key": key, "res": res}, open(cfile, "w"))
+        except Exception:
+            pass
     else:
         m = re.search(r'File "\./([^"]+)", line (\d+)', log)
         res["failed_theorem"] = None
